@@ -227,7 +227,7 @@ func firstDiffLine(a, b string) (string, string) {
 const refLoadCap = 30_000_000
 
 type c05Probe struct {
-	permCalls, permNonIdentity int64
+	permCalls, permNonIdentity                         int64
 	checkedLoads, loadsOverContent, remarshals, builds int64
 	shape                                              []string
 	failedLoads, legacyLoads                           int64
